@@ -19,6 +19,7 @@ ANCHORS = ["tensor:tenones", "tensor:tenzeros", "tensor:tenrand", "tensor:tendia
 EXHAUSTIVE = {"quick": {"shapes N<=3 sizes 1..3 for tenones/tenzeros/tenrand/from_function": "complete",
                         "sptenrand counts 1..size for every shape with <= 12 cells (N<=3)": "complete"},
               "thorough": {"same with sizes 1..4 and 20 seeds": "complete"}}
+NPINT_ARGS = True     # a quarter of the cases pass their integer arguments as NumPy integers (core.Ctx.begin)
 WATCHDOG = {"quick": 600, "thorough": 3000}
 
 
